@@ -638,6 +638,11 @@ def gen_case(rng: common.Rng, topo: str | None = None) -> dict[str, Any]:
             c.append(rat(_dy(rng, -2, 2, 4)))
             c.append(c[1] == "ineq" and rng.chance(0.5))
     case["constraints"] = cons
+    case["observables"] = []
+    if rng.chance(0.3):
+        d = rng.pick(discs)
+        ons = out_names(d)
+        case["observables"].append(rng.sample(ons, min(len(ons), rng.pick([1, 1, 2]))))
     # well-posed optimisation problem: every discipline contributes to the objective or to a constraint
     # (otherwise some design variable has no influence at all on the problem)
     for d in discs:
@@ -727,6 +732,12 @@ def valid_case(case) -> bool:
             d = producer(case, names[0])
             if any(o not in out_names(d) for o in names) or len(set(names)) != len(names):
                 return False
+        for names in case.get("observables", []):
+            if not names or len(set(names)) != len(names):
+                return False
+            d = producer(case, names[0])
+            if any(o not in out_names(d) for o in names):
+                return False
         if relevant_disciplines(case) != {d["name"] for d in case["discs"]}:
             return False
         # no degenerate function: the objective and every constraint depend on some design variable
@@ -795,6 +806,7 @@ MDA_SETTINGS = {"tolerance": 1e-14, "max_mda_iter": 300}
 
 def configs(case) -> list[dict[str, Any]]:
     cfgs: list[dict[str, Any]] = [{"form": "MDF", "mda": m} for m in MDAS]
+    cfgs.append({"form": "MDF", "mda": "MDAChain", "inner": "MDANewtonRaphson"})
     has_value = all(v["value"] is not None for v in case["ds"])
     for norm in (True, False):
         cfgs.append({"form": "IDF", "norm": norm, "eq": False})
@@ -807,7 +819,7 @@ def configs(case) -> list[dict[str, Any]]:
 
 def cfg_key(cfg) -> str:
     if cfg["form"] == "MDF":
-        return f"MDF/{cfg['mda']}"
+        return f"MDF/{cfg['mda']}" + (f"[{cfg['inner']}]" if cfg.get("inner") else "")
     if cfg["form"] == "IDF":
         return f"IDF/norm={int(cfg['norm'])}/eq={int(cfg['eq'])}"
     return cfg["form"]
@@ -822,6 +834,8 @@ def make_formulation(case, cfg):
         st = dict(MDA_SETTINGS)
         if cfg["mda"] == "MDAChain":
             st["inner_mda_settings"] = dict(MDA_SETTINGS)
+            if cfg.get("inner"):
+                st["inner_mda_name"] = cfg["inner"]
         settings = {"main_mda_name": cfg["mda"], "main_mda_settings": st}
     elif cfg["form"] == "IDF":
         settings = {"normalize_constraints": cfg["norm"], "start_at_equilibrium": cfg["eq"]}
@@ -839,6 +853,8 @@ def make_formulation(case, cfg):
         names, ty = c[0], c[1]
         a, pos = cons_fmt(c)
         form.add_constraint(names if len(names) > 1 else names[0], constraint_type=ty, value=float(a), positive=pos)
+    for names in case.get("observables", []):
+        form.add_observable(list(names))
     return form, discs
 
 
@@ -887,7 +903,7 @@ def observe_config(case, cfg, fpts) -> dict[str, Any]:
     names = list(pb.design_space.variable_names)
     obs["names"] = names
     obs["sizes"] = [int(pb.design_space.get_size(n)) for n in names]
-    funcs = [pb.objective, *pb.constraints]
+    funcs = [pb.objective, *pb.constraints, *pb.observables]
     obs["n_funcs"] = len(funcs)
     obs["f_types"] = [str(getattr(getattr(f, "f_type", ""), "value", getattr(f, "f_type", ""))) for f in funcs]
     if cfg["form"] == "IDF" and cfg.get("eq") and pb.design_space.has_current_value:
@@ -1006,8 +1022,9 @@ def oracle_config(case, obs) -> list[tuple[str, str]]:
     names = exp_names
     n_user = len(case["constraints"])
     plan = idf_constraint_plan(case) if form == "IDF" else [("function", c) for c in case["constraints"]]
-    if obs["n_funcs"] != 1 + len(plan):
-        bad.append((f"{form.lower()}-constraint-count", f"{ck}: {obs['n_funcs'] - 1} constraints instead of {len(plan)} ({n_user} user)"))
+    n_obs = len(case.get("observables", []))
+    if obs["n_funcs"] != 1 + len(plan) + n_obs:
+        bad.append((f"{form.lower()}-constraint-count", f"{ck}: {obs['n_funcs'] - 1 - n_obs} constraints instead of {len(plan)} ({n_user} user)"))
         return bad
     want_types = ["obj"]
     for k, (kind, _) in enumerate(plan):
@@ -1029,7 +1046,7 @@ def oracle_config(case, obs) -> list[tuple[str, str]]:
             # objective and user functions
             specs = [("objective", [[case["objective"]], "obj"])] + [
                 (("consistency" if kind == "consistency" else "constraint"), what) for kind, what in plan
-            ]
+            ] + [("observable", [ns, "obs"]) for ns in case.get("observables", [])]
             for k, (kind, what) in enumerate(specs):
                 if kind == "consistency":
                     ev, ej = expect_consistency(case, what, names, point, cfg["norm"])
@@ -1067,6 +1084,7 @@ def oracle_config(case, obs) -> list[tuple[str, str]]:
             if sol is None:
                 continue
             specs = [("objective", [[case["objective"]], "obj"])] + [("constraint", c) for c in case["constraints"]]
+            specs += [("observable", [ns, "obs"]) for ns in case.get("observables", [])]
             # DisciplinaryOpt on a feed-forward system and MDF with MDAChain on a system without strong coupling
             # involve no fixed-point iteration, but the chain rule / coupled adjoint go through a linear solve
             for k, (kind, what) in enumerate(specs):
@@ -1107,7 +1125,7 @@ def oracle_cross(case, obs_by_key: dict[str, Any]) -> list[tuple[str, str]]:
         for ri in oi["evals"]:
             if ri["tag"] != "consistent" or "error" in ri:
                 continue
-            n_cons = len(ri["vals"]) - 1 - n_user
+            n_cons = len(ri["vals"]) - 1 - n_user - len(case.get("observables", []))
             # stacked consistency constraints: rows = all couplings
             crow = [row for k in range(1, 1 + n_cons) for row in ri["jacs"][k]]
             tcols = [off_i[k] + c for k in cpl for c in range(var_size(case, k))]
@@ -1130,7 +1148,8 @@ def oracle_cross(case, obs_by_key: dict[str, Any]) -> list[tuple[str, str]]:
                         rm["point"][n] != ri["point"][n] for n in names_m
                     ):
                         continue
-                    fidx = [0] + list(range(1 + n_cons, 1 + n_cons + n_user))
+                    n_fun = n_user + len(case.get("observables", []))
+                    fidx = [0] + list(range(1 + n_cons, 1 + n_cons + n_fun))
                     for km, ki in enumerate(fidx):
                         who = f"{cfg_key(om['cfg'])} vs {cfg_key(oi['cfg'])} at {ri['kind']} point, function {km}"
                         try:
@@ -1278,6 +1297,8 @@ def model_lines_for_config(case, obs) -> list[tuple[str, Any]]:
         a, pos = cons_fmt(c)
         if len(c) > 2:
             fmt_tok[len(funcs) - 1] = f" a={rat(a)} pos={int(pos)}"
+    for ns in case.get("observables", []):
+        funcs.append(("f", ",".join(ns)))
     udn = used_design_names(case)
     if obs.get("n_funcs") != len(funcs):
         # the formulation does not expose the functions the model expects (the oracle reports the count)
@@ -1438,6 +1459,10 @@ def _simplifications(case):
             c = copy.deepcopy(case)
             del c["points"][i]
             yield c
+    if case.get("observables"):
+        c = copy.deepcopy(case)
+        c["observables"] = []
+        yield c
     # fewer user constraints
     for i in range(len(case["constraints"])):
         c = copy.deepcopy(case)
@@ -1454,7 +1479,7 @@ def _simplifications(case):
                 c = copy.deepcopy(case)
                 c["discs"][di]["outs"][oi][1]["quad"] = {}
                 yield c
-            if o not in couplings(case) and o != case["objective"] and all(o not in c_[0] for c_ in case["constraints"]):
+            if o not in couplings(case) and o != case["objective"] and all(o not in c_[0] for c_ in case["constraints"]) and all(o not in ns for ns in case.get("observables", [])):
                 c = copy.deepcopy(case)
                 del c["discs"][di]["outs"][oi]
                 c["discs"][di]["declare_linear"] = [t for t in d.get("declare_linear", []) if t != o]
